@@ -80,13 +80,29 @@ int main(int argc, char **argv) {
   while (std::getline(std::cin, line)) {
     std::vector<std::string> t = hx::split_ws(line);
     if (t.empty()) { std::cout << "?\n"; continue; }
-    if ((t[0] == "H" || t[0] == "N") && t.size() == 3) {
+    if (t[0] == "C") {
+      preprocess::HashCallback dflt;   // constants as compiled: the default seed of HashCallback, the native dispatch
+      const char probe[] = "constants";
+      std::cout << "shard_seed=" << dflt.Hash() << " native_is_64a=" << (util::MurmurHashNative(probe, 9, 7) == util::MurmurHash64A(probe, 9, 7) ? 1 : 0)
+                << " default_seed_64a=" << (util::MurmurHash64A(probe, 9) == util::MurmurHash64A(probe, 9, 0) ? 0 : -1) << "\n";
+    } else if ((t[0] == "H" || t[0] == "N") && t.size() == 3) {
       std::string raw = Arg(t[2]);
       char *buf = (char *)malloc(raw.size() ? raw.size() : 1);   // exact size: over-reads visible to ASan
       memcpy(buf, raw.data(), raw.size());
       uint64_t seed = strtoull(t[1].c_str(), 0, 10);
       uint64_t h = t[0] == "H" ? util::MurmurHash64A(buf, raw.size(), seed) : util::MurmurHashNative(buf, raw.size(), seed);
       std::cout << h << "\n";
+      free(buf);
+    } else if (t[0] == "A" && t.size() == 4) {
+      // the string placed at offset <align> of a heap block: start address = 16-aligned base + align
+      size_t align = strtoul(t[1].c_str(), 0, 10) % 16;
+      std::string raw = Arg(t[3]);
+      char *buf = (char *)malloc(raw.size() + align + 1);
+      memcpy(buf + align, raw.data(), raw.size());
+      uint64_t seed = strtoull(t[2].c_str(), 0, 10);
+      uint64_t a = util::MurmurHash64A(buf + align, raw.size(), seed), b = util::MurmurHashNative(buf + align, raw.size(), seed);
+      if (a != b) std::cout << "NATIVE-DIFFERS "; 
+      std::cout << a << "\n";
       free(buf);
     } else if (t[0] == "M" && t.size() == 4) {
       std::string raw = Arg(t[3]);
